@@ -479,9 +479,9 @@ def ibeta_point(rng):
     elif k == 9:      # continued fraction far in a tail: y < minlog -> 0, and 1 - VERY_TINY on the swapped side
         al, be = rng.uniform(100, 200), rng.uniform(100, 200)
         x = rng.choice([rng.uniform(0.01, 0.15), rng.uniform(0.85, 0.99)])
-    elif k == 10:     # direct normalisation, swapped side with t < VERY_TINY
-        al, be = rng.uniform(20, 80), rng.uniform(20, 80)
-        x = rng.uniform(0.93, 0.999)
+    elif k == 10:     # direct normalisation, swapped side with t < VERY_TINY: beta log(1/(1-x)) in (40, 53.4)
+        al, be = log_uniform(rng, 0.2, 5), rng.uniform(10, 150)
+        x = 1 - math.exp(-rng.uniform(40, 53.4) / be)
     elif k == 11:     # between the mode and the mean: fe2
         al = log_uniform(rng, 1.2, 60); be = al * log_uniform(rng, 1.5, 20)
         mode, mean = (al - 1) / (al + be - 2), al / (al + be)
@@ -654,6 +654,8 @@ NOT_EXECUTED = {
         "needs a NaN y",
     ("qBeta", "if (tx != 0. && tx != 1.)", 1):
         "trial point exactly 0: xinbta - adj == 0 needs adj == xinbta bit for bit",
+    ("qBeta", "if (tx != 0. && tx != 1.)", 3):
+        "trial point exactly 1: reached about twice per run by `kext` (a shape < 0.1 against a large one), absent at some seeds",
     ("incompletebetafe", "if (qk != 0)", 1): "qk == 0 exactly: exact cancellation only",
     ("incompletebetafe", "if (r != 0)", 1): "pk == 0 exactly: exact cancellation only",
     ("incompletebetafe", "if (fabs(qk) + fabs(pk) > big)", 0):
